@@ -31,6 +31,7 @@ import (
 
 	"github.com/mdlayher/corerad/internal/verifh"
 	"github.com/mdlayher/ndp"
+	"golang.org/x/net/ipv6"
 )
 
 // TestMain: the test binary doubles as the daemon.
@@ -229,16 +230,19 @@ prometheus = true
 
 		// nextRA waits for the next router advertisement on the peer (any destination)
 		var routerLL netip.Addr
+		lastUnicast := false // the last RA seen was addressed to the peer itself
+		_ = peer.SetControlMessage(ipv6.FlagDst|ipv6.FlagHopLimit, true)
 		nextRA := func(d time.Duration) *ndp.RouterAdvertisement {
 			dl := time.Now().Add(d)
 			for {
 				_ = peer.SetReadDeadline(dl)
-				m, _, src, err := peer.ReadFrom()
+				m, cm, src, err := peer.ReadFrom()
 				if err != nil {
 					return nil
 				}
 				if ra, ok := m.(*ndp.RouterAdvertisement); ok {
 					routerLL = src
+					lastUnicast = cm != nil && cm.Dst != nil && !cm.Dst.IsMulticast()
 					return ra
 				}
 			}
@@ -363,11 +367,17 @@ prometheus = true
 			answered := false
 			for try := 0; try < 2 && !answered; try++ {
 				_ = peer.WriteTo(&ndp.RouterSolicitation{}, nil, routerLL)
-				answered = nextRA(2*time.Second) != nil
+				// the answer to a host with an address is unicast (a periodic multicast RA passing by does not count)
+				dl := time.Now().Add(2 * time.Second)
+				for !answered && time.Now().Before(dl) {
+					if nextRA(time.Until(dl)) != nil && lastUnicast {
+						answered = true
+					}
+				}
 			}
 			res.obs["rs_to_router_address"] = answered
 			if !answered {
-				res.viol = append(res.viol, fmt.Sprintf("a router solicitation sent to the router's own address %s got no answer within 2 s (twice)", routerLL))
+				res.viol = append(res.viol, fmt.Sprintf("a router solicitation sent to the router's own address %s got no unicast answer within 2 s (twice)", routerLL))
 			}
 		}
 		// one interface (vd0) never came up: the supervisor has been told about the tasks that started, but not READY=1
